@@ -1,8 +1,8 @@
 SPECIFICATION Spec
 CONSTANTS
- AllLens <- Lens0to700
+ AllLens <- Lens0to520
  EdgeLens <- Edges
  BigLens <- Big6
- Reps = 8
+ Reps = 3
 ACTION_CONSTRAINT Emit
 CHECK_DEADLOCK FALSE
